@@ -9,18 +9,21 @@ operator, the `impl` blocks that exist; `infer` is the obvious bottom-up type as
 The misuse predicates (`mis1/mis2/mis3`, bottom of the file) are written on the *tags*
 (`Ty.space?`, `Ty.dim?`, the kind of nominal type) and never call `ty*`/`affineDiff`.
 
-Source anchors (all under /repo/core/src):
-  math/space.rs  : Affine, Linear, Real, Proj4, scalar impls (80-160)
-  math/vec.rs    : Vector, to/to_pt (103-113), Affine/Linear impls (344-385), operators (510-630)
-  math/point.rs  : Point, to/to_vec (38-48), Affine impl (167-185), operators (243-296)
-  math/mat.rs    : LinearMap/Compose (28-41), Matrix::to (78), row_vec/col_vec (92-102),
-                   transpose (107), compose/then (155-197), apply/apply_pt/inverse (199-370),
-                   RealToProj::apply (379), LinearMap/Compose impls (398-426), rotate_* (500-540)
-  math/angle.rs  : Angle (private field, 23-25), rads/degs/turns (62-80), polar/spherical (126-150),
-                   trig (190-215), to_cart/to_polar (240-300), operators (385-425)
-  math/color.rs  : Color, conversions (110-340), Affine/Linear impls (419-470)
-  math.rs        : Lerp (96-109)
-  render.rs      : Shader bound `Output = Vertex<ProjVec4, Var>` (82-91), render (94-106)
+Source anchors (all under /repo/core/src, line numbers as of /repo 0dcf240):
+  math/space.rs  : Affine (12-32), Linear (44-67), Real (73), Proj4 (80), scalar impls (82-160), blanket Vary (155-178)
+  math/vec.rs    : Vector, to/to_pt (103-113), Affine/Linear impls (344-385), operators (510-628)
+  math/point.rs  : Point, to/to_vec (39-48), Affine impl (157-174), operators (247-296)
+  math/mat.rs    : LinearMap/Compose (28-40), Matrix::to (79), row_vec/col_vec (99-112),
+                   transpose (113-121, const assert 118), compose/then (158-197), apply/apply_pt/inverse (199-382),
+                   RealToProj::apply (384-397), LinearMap/Compose impls (413-436), scale/translate (498-518),
+                   orient_y/z (526-541), rotate_* (555-590)
+  math/angle.rs  : Angle (private field, 25), rads/degs/turns (47-59), polar/spherical (117-127),
+                   to_rads/… (154-175), min (178), trig (213-248), r/az/to_cart (269-345), to_polar/to_spherical (379-430),
+                   Affine/Linear (441-470), operators (499-535)
+  math/color.rs  : Color (26), conversions (101-393), accessors (396-480), Affine/Linear impls (484-533)
+  math.rs        : Lerp (55-109)
+  math/vary.rs   : Vary (43-63), `()` and pair impls (71-105)
+  render.rs      : Shader bound `Output = Vertex<ProjVec4, Var>` (85-94), render (96-108)
 -/
 import Retro.Basic
 
@@ -43,16 +46,16 @@ inductive Tag where
   | proj4                        -- space.rs:80
   | polar                        -- angle.rs:29
   | spherical                    -- angle.rs:33
-  | rgb | rgba | linRgb | hsl | hsla   -- color.rs:29-47
+  | rgb | rgba | linRgb | hsl | hsla   -- color.rs:30-46
   | unit                         -- `()`, the default `Space` of `Vector`/`Point` and `Map` of `Mat4x4`
-  | r2r (n : Nat) (s d : Basis)  -- mat.rs:44  `RealToReal<DIM, SrcBasis, DstBasis>`
-  | r2p (s : Basis)              -- mat.rs:50  `RealToProj<SrcBasis>`
+  | r2r (n : Nat) (s d : Basis)  -- mat.rs:45  `RealToReal<DIM, SrcBasis, DstBasis>`
+  | r2p (s : Basis)              -- mat.rs:51  `RealToProj<SrcBasis>`
   deriving DecidableEq, Repr, Inhabited
 
 abbrev Space := Tag
 abbrev Map := Tag
 
-/-- `impl LinearMap` (mat.rs:398-426): `<m as LinearMap>::Source`, `none` if `m: LinearMap` does not hold. -/
+/-- `impl LinearMap` (mat.rs:413-436): `<m as LinearMap>::Source`, `none` if `m: LinearMap` does not hold. -/
 def Tag.source? : Tag → Option Tag
   | .r2r n s _ => some (.real n s)
   | .r2p s => some (.real 3 s)
@@ -66,7 +69,7 @@ def Tag.dest? : Tag → Option Tag
   | .unit => some .unit
   | _ => none
 
-/-- `impl Compose<Inner> for Outer` (mat.rs:403-420): exactly two impls exist.
+/-- `impl Compose<Inner> for Outer` (mat.rs:418-432): exactly two impls exist.
 `composeMap outer inner = <outer as Compose<inner>>::Result`. -/
 def composeMap : Tag → Tag → Option Tag
   -- impl<DIM,S,I,D> Compose<RealToReal<DIM,S,I>> for RealToReal<DIM,I,D> { Result = RealToReal<DIM,S,D> }
@@ -100,14 +103,14 @@ abbrev projVec4 : Ty := .vec .f32 4 .proj4
 
 /-! ### Trait impls: `Affine`, `Linear`, `Lerp` -/
 
-/-- `<s as Affine>::Diff` for scalars (space.rs:84, 112, 140; `u8` has no impl). -/
+/-- `<s as Affine>::Diff` for scalars (space.rs:82, 109, 136; `u8` has no impl). -/
 def scAffineDiff : Sc → Option Sc
   | .f32 => some .f32
   | .i32 => some .i32
   | .u32 => some .i32
   | .u8 => none
 
-/-- `s: Linear<Scalar = s>` (space.rs:98, 126). -/
+/-- `s: Linear<Scalar = s>` (space.rs:95, 122). -/
 def scLinear : Sc → Bool
   | .f32 | .i32 => true
   | _ => false
@@ -115,29 +118,29 @@ def scLinear : Sc → Bool
 /-- `<T as Affine>::Diff`, `none` when `T: Affine` does not hold. -/
 def affineDiff : Ty → Option Ty
   | .sc s => (scAffineDiff s).map .sc
-  | .angle => some .angle                                   -- angle.rs:320
+  | .angle => some .angle                                   -- angle.rs:441
   -- vec.rs:344  where Sc: Affine<Diff: Linear<Scalar = Sc::Diff> + Copy>;  Diff = Vector<[Sc::Diff; DIM], Sp>
   | .vec s n sp =>
     match scAffineDiff s with
     | some d => if scLinear d then some (.vec d n sp) else none
     | none => none
-  -- point.rs:167  where Sc: Linear<Scalar = Sc> + Copy;  Diff = Vector<[Sc; N], Sp>
+  -- point.rs:157  where Sc: Linear<Scalar = Sc> + Copy;  Diff = Vector<[Sc; N], Sp>
   | .pt s n sp => if scLinear s then some (.vec s n sp) else none
-  -- color.rs:419  Color<[u8; DIM], Sp>: Diff = Vector<[i32; DIM], Sp>
+  -- color.rs:484  Color<[u8; DIM], Sp>: Diff = Vector<[i32; DIM], Sp>
   | .col .u8 n sp => some (.vec .i32 n sp)
-  -- color.rs:439  Color<[f32; DIM], Sp>: Diff = Self
+  -- color.rs:503  Color<[f32; DIM], Sp>: Diff = Self
   | .col .f32 n sp => some (.col .f32 n sp)
   | _ => none
 
 /-- `<T as Linear>::Scalar`, `none` when `T: Linear` does not hold. -/
 def linearScalar : Ty → Option Ty
   | .sc s => if scLinear s then some (.sc s) else none
-  | .angle => some f32                                       -- angle.rs:335
+  | .angle => some f32                                       -- angle.rs:456
   | .vec s _ _ => if scLinear s then some (.sc s) else none  -- vec.rs:366
-  | .col .f32 _ _ => some f32                                -- color.rs:455
+  | .col .f32 _ _ => some f32                                -- color.rs:519
   | _ => none
 
-/-- `T: Lerp` (math.rs:96-109): the blanket impl `T: Affine<Diff: Linear<Scalar = f32>>`,
+/-- `T: Lerp` (math.rs:59-109): the blanket impl `T: Affine<Diff: Linear<Scalar = f32>>`,
 `()`, and pairs of `Lerp` types. -/
 def lerpable : Ty → Bool
   | .unit => true
@@ -217,9 +220,9 @@ abbrev Ctx := List Ty
 def tyAdd (x y : Ty) : Option Ty :=
   match x with
   | .sc _ => if y = x then some x else none            -- core: f32+f32, i32+i32, …
-  | .angle => if y = .angle then some .angle else none -- angle.rs:385
+  | .angle => if y = .angle then some .angle else none -- angle.rs:499
   -- vec.rs:540  impl Add<<Self as Affine>::Diff> for Vector<R,Sp> where Self: Affine { Output = Self }
-  -- point.rs:243 impl Add<<Self as Affine>::Diff> for Point<R,Sp> where Self: Affine { Output = Self }
+  -- point.rs:247 impl Add<<Self as Affine>::Diff> for Point<R,Sp> where Self: Affine { Output = Self }
   | .vec .. | .pt .. =>
     match affineDiff x with
     | some d => if y = d then some x else none
@@ -235,8 +238,8 @@ def tySub (x y : Ty) : Option Ty :=
     match affineDiff x with
     | some d => if y = d then some x else none
     | none => none
-  -- point.rs:265 impl Sub<<Self as Affine>::Diff> for Point { Output = Self }
-  -- point.rs:286 impl Sub for Point { Output = <Self as Affine>::Diff }
+  -- point.rs:267 impl Sub<<Self as Affine>::Diff> for Point { Output = Self }
+  -- point.rs:287 impl Sub for Point { Output = <Self as Affine>::Diff }
   | .pt .. =>
     match affineDiff x with
     | some d => if y = d then some x else if y = x then some d else none
@@ -251,7 +254,7 @@ def tyMul (x y : Ty) : Option Ty :=
       -- vec.rs:597-628  impl Mul<Vector<R,Sp>> for f32/i32/u32 where Vector<R,Sp>: Linear<Scalar = f32/i32/u32>
       | .vec .. => if s ≠ .u8 ∧ linearScalar y = some x then some y else none
       | _ => none
-  | .angle => if y = f32 then some .angle else none     -- angle.rs:404
+  | .angle => if y = f32 then some .angle else none     -- angle.rs:518
   -- vec.rs:567  impl Mul<<Self as Linear>::Scalar> for Vector where Self: Linear
   | .vec .. =>
     match linearScalar x with
@@ -262,7 +265,7 @@ def tyMul (x y : Ty) : Option Ty :=
 def tyDiv (x y : Ty) : Option Ty :=
   match x with
   | .sc _ => if y = x then some x else none
-  | .angle => if y = f32 then some .angle else none     -- angle.rs:410
+  | .angle => if y = f32 then some .angle else none     -- angle.rs:524
   -- vec.rs:582  impl Div<f32> for Vector where Self: Linear<Scalar = f32>
   | .vec .. => if linearScalar x = some f32 ∧ y = f32 then some x else none
   | _ => none
@@ -270,11 +273,11 @@ def tyDiv (x y : Ty) : Option Ty :=
 def tyNeg (x : Ty) : Option Ty :=
   match x with
   | .sc .f32 | .sc .i32 => some x                       -- core
-  | .angle => some x                                    -- angle.rs:397
+  | .angle => some x                                    -- angle.rs:511
   | .vec .. => if (linearScalar x).isSome then some x else none   -- vec.rs:585 where Self: Linear
   | _ => none
 
-/-- Colour conversions (color.rs:110-340): `(conversion, source) ↦ target`, exactly the inherent
+/-- Colour conversions (color.rs:101-393): `(conversion, source) ↦ target`, exactly the inherent
 impl blocks that exist. -/
 def tyColour (o : Op1) (s : Sc) (n : Nat) (sp : Space) : Option Ty :=
   match o, s, n, sp with
@@ -304,34 +307,34 @@ def ty1 (o : Op1) (x : Ty) : Option Ty :=
   match o with
   | .neg => tyNeg x
   | .mNeg => if (linearScalar x).isSome then some x else none   -- Linear::neg(&self) -> Self
-  | .to t =>                    -- vec.rs:103, point.rs:38, mat.rs:78: any target type
+  | .to t =>                    -- vec.rs:103, point.rs:39, mat.rs:79: any target type
     match x with
     | .vec sc n _ => some (.vec sc n t)
     | .pt sc n _ => some (.pt sc n t)
     | .mat n _ => some (.mat n t)
     | _ => none                 -- Color has no `to`
   | .toPt => match x with | .vec sc n sp => some (.pt sc n sp) | _ => none    -- vec.rs:110
-  | .toVec => match x with | .pt sc n sp => some (.vec sc n sp) | _ => none   -- point.rs:45
+  | .toVec => match x with | .pt sc n sp => some (.vec sc n sp) | _ => none   -- point.rs:46
   | .len => match x with | .vec .f32 _ _ => some f32 | _ => none               -- vec.rs:116-120
   | .normalize => match x with | .vec .f32 _ _ => some x | _ => none           -- vec.rs:140
-  -- mat.rs:273  impl<Src,Dst> Mat4x4<RealToReal<3,Src,Dst>> { fn inverse(&self) -> Mat4x4<RealToReal<3,Dst,Src>> }
+  -- mat.rs:300  impl<Src,Dst> Mat4x4<RealToReal<3,Src,Dst>> { fn inverse(&self) -> Mat4x4<RealToReal<3,Dst,Src>> }
   | .inverse => match x with | .mat 4 (.r2r 3 s d) => some (.mat 4 (.r2r 3 d s)) | _ => none
-  -- mat.rs:104  impl Matrix<[[Sc;N];N], RealToReal<DIM,S,D>> { fn transpose(self) -> …RealToReal<DIM,D,S> }
+  -- mat.rs:113-117  impl Matrix<[[Sc;N];N], RealToReal<DIM,S,D>> { fn transpose(self) -> …RealToReal<DIM,D,S> }
   -- mat.rs:118    const { assert!(N >= DIM, "map dimension >= matrix dimension") }  (post-monomorphisation error)
   | .transpose =>
     match x with
     | .mat n (.r2r k s d) => if k ≤ n then some (.mat n (.r2r k d s)) else none
     | _ => none
-  | .determinant => match x with | .mat 4 (.r2r 3 _ _) => some f32 | _ => none   -- mat.rs:261
-  -- mat.rs:85-102  where Map: LinearMap: row_vec -> Vector<[Sc;N], Map::Source>, col_vec -> Vector<[Sc;M], Map::Dest>
+  | .determinant => match x with | .mat 4 (.r2r 3 _ _) => some f32 | _ => none   -- mat.rs:266
+  -- mat.rs:92-112  where Map: LinearMap: row_vec -> Vector<[Sc;N], Map::Source>, col_vec -> Vector<[Sc;M], Map::Dest>
   | .rowVec => match x with | .mat n m => m.source?.map (.vec .f32 n) | _ => none
   | .colVec => match x with | .mat n m => m.dest?.map (.vec .f32 n) | _ => none
-  -- angle.rs:62-100  rads/degs/turns/asin/acos (a: f32) -> Angle
+  -- angle.rs:47-97  rads/degs/turns/asin/acos (a: f32) -> Angle
   | .degs | .rads | .turns | .asin | .acos => if x = f32 then some .angle else none
-  -- angle.rs:190-205 Angle::sin/cos/tan(self) -> f32;  std: f32::sin/cos/tan(self) -> f32
+  -- angle.rs:213-248 Angle::sin/cos/tan(self) -> f32;  std: f32::sin/cos/tan(self) -> f32
   | .sin | .cos | .tan => if x = .angle ∨ x = f32 then some f32 else none
   | .sinCos => if x = .angle ∨ x = f32 then some (.pair f32 f32) else none
-  | .toRads | .toDegs | .toTurns => if x = .angle then some f32 else none   -- angle.rs:150-165
+  | .toRads | .toDegs | .toTurns => if x = .angle then some f32 else none   -- angle.rs:154-175
   | .angleCtor => none                                   -- angle.rs:25: constructor not visible
   | .field0 =>
     match x with
@@ -341,18 +344,18 @@ def ty1 (o : Op1) (x : Ty) : Option Ty :=
     | .pair a _ => some a
     | _ => none
   | .angleFrom => if x = .angle then some .angle else none     -- only core's reflexive From<T> for T
-  -- mat.rs:500-540  rotate_x/y/z(a: Angle) -> Mat4x4<RealToReal<3>>
+  -- mat.rs:555-590  rotate_x/y/z(a: Angle) -> Mat4x4<RealToReal<3>>
   | .rotateX | .rotateY | .rotateZ => if x = .angle then some (.mat 4 (.r2r 3 .unit .unit)) else none
-  -- mat.rs:452-474  scale/translate(v: Vec3) -> Mat4x4<RealToReal<3>>
+  -- mat.rs:498-518  scale/translate(v: Vec3) -> Mat4x4<RealToReal<3>>
   | .translate | .scale => if x = .vec .f32 3 (.real 3 .unit) then some (.mat 4 (.r2r 3 .unit .unit)) else none
-  -- angle.rs:240-275  PolarVec::to_cart -> Vec2, SphericalVec::to_cart -> Vec3
+  -- angle.rs:304, 332  PolarVec::to_cart -> Vec2, SphericalVec::to_cart -> Vec3
   | .toCart =>
     match x with
     | .vec .f32 2 .polar => some (.vec .f32 2 (.real 2 .unit))
     | .vec .f32 3 .spherical => some (.vec .f32 3 (.real 3 .unit))
     | _ => none
-  | .toPolar => if x = .vec .f32 2 (.real 2 .unit) then some (.vec .f32 2 .polar) else none       -- angle.rs:280
-  | .toSpherical => if x = .vec .f32 3 (.real 3 .unit) then some (.vec .f32 3 .spherical) else none  -- angle.rs:290
+  | .toPolar => if x = .vec .f32 2 (.real 2 .unit) then some (.vec .f32 2 .polar) else none       -- angle.rs:379
+  | .toSpherical => if x = .vec .f32 3 (.real 3 .unit) then some (.vec .f32 3 .spherical) else none  -- angle.rs:418
   | .az =>
     match x with
     | .vec .f32 2 .polar | .vec .f32 3 .spherical => some .angle
@@ -361,8 +364,8 @@ def ty1 (o : Op1) (x : Ty) : Option Ty :=
     match x with
     | .col s n sp => tyColour o s n sp
     | _ => none
-  -- color.rs:343-417  r()/g()/b() for Color<R, Rgb|Rgba>, h()/s()/l() for Color<R, Hsl|Hsla>
-  -- … and angle.rs:215, 232  PolarVec::r(), SphericalVec::r() -> f32 (the same method name)
+  -- color.rs:396-480  r()/g()/b() for Color<R, Rgb|Rgba>, h()/s()/l() for Color<R, Hsl|Hsla>
+  -- … and angle.rs:269, 313  PolarVec::r(), SphericalVec::r() -> f32 (the same method name)
   | .chanR =>
     match x with
     | .col s _ sp => if sp = .rgb ∨ sp = .rgba then some (.sc s) else none
@@ -374,23 +377,23 @@ def ty1 (o : Op1) (x : Ty) : Option Ty :=
     match x with
     | .vec s _ (.real 3 _) | .vec s _ .proj4 | .pt s _ (.real 3 _) => some (.sc s)
     | _ => none
-  -- render.rs:82-106  Shd: VertexShader<Vtx, Uni, Output = Vertex<ProjVec4, Var>>
+  -- render.rs:85-108  Shd: VertexShader<Vtx, Uni, Output = Vertex<ProjVec4, Var>>
   | .render => if x = projVec4 then some .unit else none
 
-/-- The argument type a matrix's `apply` takes and the type it returns (mat.rs:199-247, 379). -/
+/-- The argument type a matrix's `apply` takes and the type it returns (mat.rs:199-250, 384-397). -/
 def applySig : Ty → Option (Ty × Ty)
   | .mat 3 (.r2r 2 s d) => some (.vec .f32 2 (.real 2 s), .vec .f32 2 (.real 2 d))
   | .mat 4 (.r2r 3 s d) => some (.vec .f32 3 (.real 3 s), .vec .f32 3 (.real 3 d))
   | .mat 4 (.r2p s) => some (.pt .f32 3 (.real 3 s), projVec4)
   | _ => none
 
-/-- Same for `apply_pt` (mat.rs:207, 243): no such method on projective matrices. -/
+/-- Same for `apply_pt` (mat.rs:218, 244): no such method on projective matrices. -/
 def applyPtSig : Ty → Option (Ty × Ty)
   | .mat 3 (.r2r 2 s d) => some (.pt .f32 2 (.real 2 s), .pt .f32 2 (.real 2 d))
   | .mat 4 (.r2r 3 s d) => some (.pt .f32 3 (.real 3 s), .pt .f32 3 (.real 3 d))
   | _ => none
 
-/-- `outer.compose(&inner)` (mat.rs:155-185): same matrix size, `Outer: Compose<Inner>`. -/
+/-- `outer.compose(&inner)` (mat.rs:158-185): same matrix size, `Outer: Compose<Inner>`. -/
 def tyCompose (outer inner : Ty) : Option Ty :=
   match outer, inner with
   | .mat n mo, .mat n' mi =>
@@ -403,8 +406,8 @@ def ty2 (o : Op2) (x y : Ty) : Option Ty :=
   | .sub => tySub x y
   | .mul => tyMul x y
   | .div => tyDiv x y
-  -- vec.rs:530, point.rs:254  impl AddAssign<<Self as Affine>::Diff> where Self: Affine;  core: f32 += f32 …
-  -- vec.rs:543, point.rs:276  impl SubAssign<<Self as Affine>::Diff>             (Angle has no op-assign impls)
+  -- vec.rs:530, point.rs:258  impl AddAssign<<Self as Affine>::Diff> where Self: Affine;  core: f32 += f32 …
+  -- vec.rs:543, point.rs:278  impl SubAssign<<Self as Affine>::Diff>             (Angle has no op-assign impls)
   | .addAssign | .subAssign =>
     match x with
     | .sc _ => if y = x then some x else none
@@ -422,9 +425,9 @@ def ty2 (o : Op2) (x y : Ty) : Option Ty :=
     | .sc _ => if y = x then some x else none
     | .vec .. => if linearScalar x = some f32 ∧ y = f32 then some x else none
     | _ => none
-  -- space.rs:29  fn add(&self, diff: &Self::Diff) -> Self
+  -- space.rs:26  fn add(&self, diff: &Self::Diff) -> Self
   | .mAdd => match affineDiff x with | some d => if y = d then some x else none | none => none
-  -- space.rs:34  fn sub(&self, other: &Self) -> Self::Diff
+  -- space.rs:31  fn sub(&self, other: &Self) -> Self::Diff
   | .mSub => match affineDiff x with | some d => if y = x then some d else none | none => none
   -- space.rs:66  fn mul(&self, scalar: Self::Scalar) -> Self
   | .mMul => match linearScalar x with | some k => if y = k then some x else none | none => none
@@ -459,7 +462,7 @@ def ty2 (o : Op2) (x y : Ty) : Option Ty :=
     match x with
     | .vec s 3 (.real 3 _) => if scLinear s ∧ y = x then some x else none
     | _ => none
-  -- point.rs:60-95  impl<const N, B> Point<[f32; N], Real<N, B>> { distance(&self, other: &Self) -> f32 }
+  -- point.rs:61-76  impl<const N, B> Point<[f32; N], Real<N, B>> { distance(&self, other: &Self) -> f32 }
   | .distance =>
     match x with
     | .pt .f32 n (.real n' _) => if n = n' ∧ y = x then some f32 else none
@@ -467,14 +470,14 @@ def ty2 (o : Op2) (x y : Ty) : Option Ty :=
   | .apply => match applySig x with | some (arg, res) => if y = arg then some res else none | none => none
   | .applyPt => match applyPtSig x with | some (arg, res) => if y = arg then some res else none | none => none
   | .compose => tyCompose x y
-  | .thn => tyCompose y x            -- mat.rs:187  then(&self, other: &Matrix<_, Outer>) where Outer: Compose<Map>
-  | .polar => if x = f32 ∧ y = .angle then some (.vec .f32 2 .polar) else none   -- angle.rs:126
-  | .atan2 => if x = f32 ∧ y = f32 then some .angle else none                    -- angle.rs:105
+  | .thn => tyCompose y x            -- mat.rs:191  then(&self, other: &Matrix<_, Outer>) where Outer: Compose<Map>
+  | .polar => if x = f32 ∧ y = .angle then some (.vec .f32 2 .polar) else none   -- angle.rs:117
+  | .atan2 => if x = f32 ∧ y = f32 then some .angle else none                    -- angle.rs:112
   | .pairOf => some (.pair x y)
 
 def ty3 (o : Op3) (x y z : Ty) : Option Ty :=
   match o with
-  -- math.rs:91  fn lerp(&self, other: &Self, t: f32) -> Self
+  -- math.rs:56  fn lerp(&self, other: &Self, t: f32) -> Self
   | .lerp => if lerpable x ∧ y = x ∧ z = f32 then some x else none
   -- vec.rs:167   impl Vector<[f32; N], Sp> { clamp(&self, min: &Self, max: &Self) -> Self }
   -- point.rs:109 impl Point<[f32; N], Real<N, B>> { clamp(&self, min: &Self, max: &Self) -> Self }
@@ -485,7 +488,7 @@ def ty3 (o : Op3) (x y z : Ty) : Option Ty :=
     | _ => none
   -- vary.rs:57  fn dv_dt(&self, other: &Self, recip_dt: f32) -> Self::Diff
   | .dvdt => match varyDiff x with | some d => if y = x ∧ z = f32 then some d else none | none => none
-  -- angle.rs:140  spherical(r: f32, az: Angle, alt: Angle) -> SphericalVec
+  -- angle.rs:125  spherical(r: f32, az: Angle, alt: Angle) -> SphericalVec
   | .spherical => if x = f32 ∧ y = .angle ∧ z = .angle then some (.vec .f32 3 .spherical) else none
 
 /-- Bottom-up type assignment; `none` = the program is not accepted by the crate's API. -/
